@@ -9,7 +9,7 @@ CLAIMED = {
     },
     "C12": {
         "text": "Proved for all sizes <= 2^63 and all block sizes: pre_order_offset / post_order_offset of the i-th persisted node in the recursive pre-/post-order traversal is i, the list has blocks-1 distinct nodes, nodes below the block level and the half-filled last leaf map to none. Correspondence: offsets of every node id and both node iterators of the real crate on every size class up to 40/300 groups x bs 0..10 and around every power of two up to 2^62.",
-        "note": "Trusted: Lean kernel, theorem statements (Props/C12.lean), model Tree.lean + Spec.lean (recursive traversal), correspondence harness. flip/copy consequences are covered by correspondence of the store model (C03/C07 ops), not by a separate theorem yet.",
+        "note": "Trusted: Lean kernel, theorem statements (Props/C12.lean, Props/C12Iter.lean: the real node iterators equal the recursive traversals, offsets along them are 0..blocks-2), model Tree.lean + Spec.lean, correspondence harness. flip/copy consequences are covered by correspondence (C10 copy ops, C03), not by a separate theorem yet.",
         "technique": "Lean 4 proof (closed forms + induction along the recursive traversal) + differential correspondence",
     },
     "C13": {
@@ -27,8 +27,28 @@ CLAIMED = {
         "note": "Trusted: Lean kernel, Props/C17.lean, model of range-collections union (proved to be set union on the model, modelled not verified w.r.t. the crate), harness. Depends on fix 79f1f13.",
         "technique": "Lean 4 proof (set semantics of boundary lists) + differential correspondence",
     },
+    "C01": {
+        "text": "Proved for ALL byte streams, all claimed geometries, all queries, both decoders and both decode_ranges drivers, under collision freedom of the two BLAKE3 primitives: every yielded leaf (off, bytes) has off % 1024 = 0, off + |bytes| <= |d| and bytes = d[off..]; every yielded pair is Spec.pair of an existing node of the true tree; every target write is such a leaf and every saved pair such a pair; a pre-sized target ends with each byte either unchanged or the blob's. The invariant is on the pending-hash stack (every entry is the chaining value of a subtree interval of the true tree); cv_inj binds position, length and root flag. Correspondence: ~21k honest / tampered / truncated / spliced / wrong-size / random streams through the real decoders.",
+        "note": "Trusted: Lean kernel, Props/C01.lean, the decoder model Codec.lean, harness. Assumes CollisionFree hf (global injectivity of chunkCv/parentCv incl. domain separation; satisfiable: symbolic instance termHash_cf); the localised (evaluated-inputs-only) form of DESIGN.md section 4 is not threaded through. With a WRONG claimed size the node LABEL of a yielded parent is not claimed (pairs are still true pairs): see DESIGN.md. 'First departure answered with an error' is covered by C09's theorems/correspondence.",
+        "technique": "Lean 4 proof (stack invariant + hash-injectivity reduction) + differential correspondence on tampered streams",
+    },
+    "C08": {
+        "text": "Proved for every hash instance, every decoder state and every stream: the sync and fsm decoders produce identical runs (items, terminal, rest) although they push/compare in different orders; decode_ranges drivers agree on target, outboard, writes, saves; validating (and plain) encoders of both flavours are equal whenever load agrees on the plan's parent nodes (always for memory stores; for io stores on persisted nodes with a full-size backing); plain = validating whenever the validating one returns Ok; the item-stream traversal is Size :: items ++ [Done|Error e] and flattens to exactly the validating encoder's bytes with the same terminal; validators agree. Correspondence: five encoder flavours and both decoders side by side on intact/corrupted stores and honest/tampered streams, all creation entry points.",
+        "note": "Trusted: Lean kernel, Props/C08.lean, models Codec.lean/Validate.lean, harness. Outboard creation has one model for both flavours (the Rust twins differ only in .await), so creation agreement is differential (C03 cases). Depends on fixes f07f070 (empty query) and f39506f (plain encoders).",
+        "technique": "Lean 4 proof (step simulation between the two machines, parallel induction) + differential correspondence",
+    },
+    "C15": {
+        "text": "Post-order plan proved for all sizes <= 2^63, bs <= 10: the iterator equals the explicit recursion left ++ right ++ [parent], leaves tile [0,size) in order with sizes min(group, rest), the root flag is on exactly the last item, the hash stack never underflows and ends with one element, the parent items are exactly the persisted nodes in post-order and the i-th has post-order offset i. Node iterators proved equal to the recursive traversals. Pre-order plan: theorems in Props/C15.lean (refinement of the explicit-stack iterator to the recursive plan, stack discipline, root flag, flags, increasing leaves). Correspondence: all three public plans, every chunk-subset query on small trees x min levels below/at/above the block size, sampled trees up to 2^40 bytes, judged by an executable well-formedness predicate.",
+        "note": "Trusted: Lean kernel, Props/C15*.lean, Iter.lean model, harness. Depends on fix f07f070 for the empty query.",
+        "technique": "Lean 4 proof (state machine = recursion, structural induction) + differential correspondence",
+    },
+    "C20": {
+        "text": "Proved for every root, geometry, query and stream, over any number of next calls including after an error and after the end: tree() and hash() return the constructor arguments (they are total in the model: no panic possible); the reader is always a suffix of the stream and, along item steps, exactly the stream minus the bytes of the items yielded; at Done the returned reader holds exactly the unread rest; decoding e ++ x after e ended Done with rest [] ends Done with rest x. Correspondence: accessors probed before every step and after errors on ~6.7k decodes incl. single-leaf blobs, empty queries, trailing garbage.",
+        "note": "Trusted: Lean kernel, Props/C20.lean, Codec.lean, harness. Depends on fix fe7f1f8 (hash() used to return stack[0] and panic on an empty stack). Reader position after a failed read is unspecified (model leaves the stream untouched on a short read).",
+        "technique": "Lean 4 proof (field invariants over steps) + differential correspondence",
+    },
 }
 
 PENDING = "in progress this round: model + correspondence exist or are being built, property theorems not yet written; will be claimed when the first theorem is checked"
 NOT_APPLICABLE = {p: PENDING for p in
-                  ["C01", "C02", "C03", "C04", "C05", "C06", "C07", "C08", "C09", "C10", "C11", "C15", "C16", "C19", "C20"]}
+                  ["C02", "C03", "C04", "C05", "C06", "C07", "C09", "C10", "C11", "C16", "C19"]}
